@@ -218,6 +218,7 @@ def nodeStep (d : NDrv) (line : String) : NDrv × String :=
   match ws with
   | ["case", n] => ({}, "case " ++ n)
   | ["case", n, _] => ({}, "case " ++ n)
+  | "note" :: _ => (d, "-")
   | _ =>
   if d.unmodelled || (words line).any (· == "~unmodelled") then ({ d with unmodelled := true }, "unmodelled") else
   match ws.getLast?.bind at? with
